@@ -3,7 +3,7 @@
 From MMD.lib Require Import Bytes Utf8.
 From MMD.gen Require Import CharTable.
 From MMD.model Require Import LabelModel MetaModel.
-From MMD.proofs Require Import MetaProofs LabelProofs EscaperProofs MetaRoundTrip MetaUpdate.
+From MMD.proofs Require Import MetaProofs LabelProofs EscaperProofs MetaRoundTrip MetaUpdate MetaMultiLine.
 Local Open Scope N_scope.
 
 (* a key - a letter or digit followed by letters, digits, blanks, '_', '-', '.' - directly followed by
@@ -40,6 +40,26 @@ Theorem meta_block_roundtrip :
 Proof. exact meta_roundtrip. Qed.
 Print Assumptions meta_block_roundtrip.
 
+(* the same with values that continue on following lines: per entry one "key:value" line and any number of continuation
+   lines - lines that are not blank and do not themselves start a key, indented or not - then the end of the text or an
+   empty line and ANY body.  Every entry is read back at its offset with its normalised key and the cleaned text of its
+   first line joined with its continuation lines (leading blanks of an indented continuation line dropped); the block
+   ends exactly after the last line of the last entry. *)
+Theorem meta_block_roundtrip_multiline :
+  forall ws e1 r tail,
+  forallb wf_mentry (e1 :: r) = true -> forallb is_ws (mval e1) = false -> tail_ok tail ->
+  meta_parse ws (mtext (e1 :: r) ++ tail) = Some (mresult ws (e1 :: r), length (mtext (e1 :: r))).
+Proof. exact meta_roundtrip_multiline. Qed.
+Print Assumptions meta_block_roundtrip_multiline.
+
+(* non-vacuity: "A b :<tab>v1" continued by "    more", then "K2:x" *)
+Example multiline_entries_are_well_formed :
+  let e1 : mentry := ([65;32;98;32], [9;118;49], [[32;32;32;32;109;111;114;101]]) in
+  let e2 : mentry := ([75;50], [120], []) in
+  forallb wf_mentry [e1; e2] = true /\ forallb is_ws (mval e1) = false /\
+  mtext [e1; e2] = [65;32;98;32;58;9;118;49;10;32;32;32;32;109;111;114;101;10;75;50;58;120;10].
+Proof. vm_compute. repeat split; reflexivity. Qed.
+
 (* updating: on such a block, mmd_engine_update_metavalue_for_key (model: MetaModel.meta_update, tied to the compiled
    function on every update of the correspondence run) called with a key that the entry (ki, vi) is the first to carry -
    in any spelling with the same normalised form - rewrites exactly that entry's value, keeping the blanks after its
@@ -73,6 +93,25 @@ Theorem update_reads_back_new_value :
   meta_parse ws (meta_update ws (block_text es ++ tail) key value) = Some (result ws es', length (block_text es')).
 Proof. exact update_reads_back. Qed.
 Print Assumptions update_reads_back_new_value.
+
+(* adding: a key that no entry of the block carries is appended to the block as one line "key:<tab>value"; the lines of the
+   block and everything after it stay, and the text reads back as the old entries followed by the new one *)
+Theorem update_adds_a_new_key :
+  forall ws es tail key value,
+  es <> [] -> forallb wf_entry es = true ->
+  (match es with e1 :: _ => forallb is_ws (snd e1) = false | [] => True end) ->
+  tail_ok tail ->
+  (forall e, In e es -> bytes_eqb_l (label_from_string key) (label_from_string (fst e)) = false) ->
+  meta_update ws (block_text es ++ tail) key value = block_text (es ++ [(key, 9 :: value)]) ++ tail /\
+  (wf_key key = true -> no_eol value = true ->
+   meta_parse ws (meta_update ws (block_text es ++ tail) key value) =
+   Some (result ws (es ++ [(key, 9 :: value)]), length (block_text (es ++ [(key, 9 :: value)])))).
+Proof.
+  intros ws es tail key value Hne Hw Hv Ht Hno. split.
+  - apply update_adds_new_key; assumption.
+  - intros Hk Hnv. apply added_key_reads_back; assumption.
+Qed.
+Print Assumptions update_adds_a_new_key.
 
 (* non-vacuity, with a key that occurs twice: "a: 1 / b: 2 / A: 3 / <empty line> / body", update a := NEW *)
 Example update_example :
